@@ -138,6 +138,11 @@ impl NumericParser {
             self.error_state = Error::POINT;
             return false;
         }
+        if n < 0 && self.has_comma && self.digit_length != 3 {
+            // a unit directly after an incomplete separator group: "1,千", "1,00万"
+            self.error_state = Error::COMMA;
+            return false;
+        }
         if NumericParser::is_small_unit(n) {
             self.tmp.shift_scale(-n);
             if !self.subtotal.add(&mut self.tmp) {
